@@ -563,6 +563,15 @@ func redactPipelineStage(stage interface{}, redactFieldNames bool, keyPath []str
 						if redactFieldNames && (!subFound || (subFound && metaVal == nil && metaOk)) {
 							redactedSubK = HashName(subK)
 						}
+						if subStr, ok := subV.(string); ok && len(subStr) > 0 && subStr[0] == '$' && redactFieldNames {
+							// a '$field' reference: renamed like the field itself
+							if _, isOp := getOp([]string{subStr}, inSearchStage); isOp {
+								newSubMap.Set(redactedSubK, subV)
+							} else {
+								newSubMap.Set(redactedSubK, HashName(subStr))
+							}
+							continue
+						}
 						switch subVTyped := subV.(type) {
 						case *orderedmap.OrderedMap[string, any]:
 							newSubMap.Set(redactedSubK, redactPipelineStage(subVTyped, redactFieldNames, append(newKeyPath, subK), inSearchStage))
@@ -586,8 +595,15 @@ func redactPipelineStage(stage interface{}, redactFieldNames bool, keyPath []str
 				}
 				continue
 			}
-			if str, ok := v.(string); ok && len(str) > 0 && str[0] == '$' && !redactFieldNames {
-				newMap.Set(redactedKey, v)
+			if str, ok := v.(string); ok && len(str) > 0 && str[0] == '$' {
+				// a '$field' reference: kept, or renamed like the field itself
+				if !redactFieldNames {
+					newMap.Set(redactedKey, v)
+				} else if _, isOp := getOp([]string{str}, inSearchStage); isOp {
+					newMap.Set(redactedKey, v)
+				} else {
+					newMap.Set(redactedKey, HashName(str))
+				}
 				continue
 			}
 			switch vTyped := v.(type) {
